@@ -45,7 +45,13 @@ impl Decoder for WithLengthBytesCodec {
         } else {
             let mut bytes = src.as_ref();
             let len = bytes.get_u64() as usize;
-            if src.remaining() >= LEN_SIZE + len {
+            let required = LEN_SIZE.checked_add(len).ok_or_else(|| {
+                std::io::Error::new(
+                    std::io::ErrorKind::InvalidData,
+                    "Frame length out of range.",
+                )
+            })?;
+            if src.remaining() >= required {
                 src.advance(LEN_SIZE);
                 Ok(Some(src.split_to(len)))
             } else {
